@@ -332,7 +332,8 @@ CARVE_OUTS = [
     "memberof/indexin: searched-for array of rank lower than the rows of the searched-in array, mismatching cell shape, scalar searched-in array, different element types",
     "find: pattern of higher rank than the array, empty pattern, scalar array, different element types, any fill value set",
     "un box of a non-box or of a non-scalar box array; range/where of box arrays and of |n| > 4096; range of a vector longer than 8",
-    "resource guards of the reference: take amounts / reshape dims / keep counts beyond 64, reshape to more than 8 axes, results beyond 100000 elements",
+    "resource guards of the reference: take amounts / reshape dims / keep counts beyond 64, results beyond 100000 elements",
+    "generator restriction: reshape to more than 8 axes is not generated (the implementation refuses 99 or more axes; the documentation gives no limit); the reference itself computes any rank",
 ]
 
 
@@ -350,8 +351,8 @@ def run(r):
         "quick tier: vm_compute of Prims.check_case on all cases (shards of <= 120 cases / 250 kB); the coq stack limit is raised for the large list literals",
     ]
     r.assumptions += ["arrays satisfy length(data) = product(shape) (premise wf of the law theorems; C05's invariant)",
-                      "numbers are integers (exactly representable doubles, |x| < 2^53); the 26 law theorems are proved of the reference for all well-formed arrays, the implementation is only sampled against it",
-                      "the law theorems with size premises (reshape_deshape: dims <= 64, rank <= 8 and <= 100000 elements; keep_neg_scalar: count <= 64) are limited by the reference's resource guards, not by the laws",
+                      "numbers are integers (exactly representable doubles, |x| < 2^53); the 33 law theorems (shapes, reverse, couple/join/fix/deshape, take-drop-join, rotate composition and inverse, select/pick/first, reshape-deshape, rise/sort, classify/deduplicate, member/indexin, match, negative keep) are proved of the reference for all well-formed arrays, the implementation is only sampled against it",
+                      "the law theorems with size premises (reshape_deshape: dims <= 64 and <= 100000 elements; keep_neg_scalar: count <= 64) are limited by the reference's resource guards, not by the laws",
                       "map keys, sortedness / boolean marks and labels of values are outside the reference (arguments are built without them; results are compared as shape + element type + data)"]
     r.coverage["carve_outs"] = CARVE_OUTS
     if not r.harness(["c08"]):
